@@ -15,7 +15,7 @@ TEXT = {
  "C03": ("proof", "TreapNode::{new,update,push,merge,split_by,split_at,collect_into} and Treap::{new,from_item,is_empty,merge,split_by,split_at,insert_at,remove_at,first,last,root,root_mut,collect,size} are verified for an arbitrary lawful item algebra (pending modifiers composed in order, no commutativity) against the sequence view `elems`; priorities occur only in merge's branch condition, so the result holds for every priority assignment.",
          "gen_priority (static mut + unsafe) is a trusted external_body returning an arbitrary u32. Default trait-method bodies of TreapItem are dropped (R13): the code is verified for an arbitrary lawful item. print.rs out of scope."),
  "C16": ("proof", "Heap clause only: merge / split_at / split_by / insert_at / remove_at / first / last / collect preserve `heap` (parent priority <= child priority on every edge) - proved for all shapes and histories. The check passes if the unit verifies in the min-heap or in the max-heap orientation (consistent direction).",
-         "NOT decided: the height bound <= 5*log2(n+1)+20 - a probabilistic statement about the priority source that no contract can express; gen_priority is a trusted external_body."),
+         "The height bound <= 5*log2(n+1)+20 is a probabilistic statement about the priority source that no contract can express (gen_priority is a trusted external_body): it is checked by BOUNDED enumeration on the real code only - five adversarial build orders (sorted appends, front insertions, split-and-swap rotations, appends with front removals, left merges of single nodes) to 10^5 elements (10^6 in the thorough tier), height compared with the bound at every doubling - labelled bounded, never counted as proved."),
  "C05": ("proof", "DSU::{new,reset,par,un,check,size} verified against the partition view (rep/same), sizes = class cardinalities, union-by-size doubling invariant sz[p[v]] >= 2*sz[v] (hence depth <= log2(component size), lemma_log_depth) and termination of the recursive find.",
          "Preconditions: indices < n. Derived Clone/Debug not under contract (Verus attaches no spec to derived Clone)."),
  "C06": ("proof", "Every function of Modular<M> the property depends on (new, inv, pow, + - * / neg and the assigning forms) is verified for a symbolic modulus 2 <= M < 2^31 against value-level contracts ((a op b) mod M, true inverse when coprime), including absence of i32/i64 overflow.",
